@@ -159,22 +159,24 @@ def _needs_space(a, b):
 def lit(value, notation, rng=None):
     """['num', value, text] in the requested notation. value >= 0."""
     assert value >= 0
+    # leading zeros change no value in any notation (a decimal 010 is ten, not eight)
+    z = '0' * rng.choice([1, 1, 2, 3]) if (rng is not None and rng.random() < 0.15) else ''
     if notation == 'dec':
-        t = str(value)
+        t = z + str(value)
     elif notation == 'dollar':
-        t = '$' + _hexcase(value, rng)
+        t = '$' + z + _hexcase(value, rng)
     elif notation == '0x':
-        t = '0x' + _hexcase(value, rng)
+        t = '0x' + z + _hexcase(value, rng)
     elif notation == 'H':
-        h = _hexcase(value, rng)
+        h = z + _hexcase(value, rng)
         # a trailing-H literal that starts like a binary literal (b0.., b1..) would be lexically ambiguous
         if h[0] in 'bB' and len(h) > 1 and h[1] in '01':
             h = '0' + h
         t = h + 'H'
     elif notation == 'pct':
-        t = '%' + format(value, 'b')
+        t = '%' + z + format(value, 'b')
     elif notation == 'b':
-        t = 'b' + format(value, 'b')
+        t = 'b' + z + format(value, 'b')
     elif notation == 'char':
         t = "'" + chr(value) + "'"
     else:
